@@ -42,6 +42,16 @@ u32 vf_c_ungetc(u32 c, char *f) {
   VF_ASSUME(vf_fpos > 0 && vf_fbytes[vf_fpos - 1] == (u8)c);   /* the readers only push back the byte just read */
   vf_fpos--; return c;
 }
+/* writing: bytes are appended to the same array (the harnesses write a file, then read it back) */
+u32 vf_c_fputc(u32 c, char *f) { VF_ASSUME(vf_flen < VF_FILEMAX); vf_fbytes[vf_flen++] = (u8)c; return (u8)c; }
+u32 vf_c_putc(u32 c, char *f) { return vf_c_fputc(c, f); }
+u64 vf_c_fwrite(char *p, u64 size, u64 nmemb, char *f) {
+  u64 n = size * nmemb; VF_ASSUME(n <= VF_FILEMAX && vf_flen + n <= VF_FILEMAX);
+  for (u64 i = 0; i < VF_FILEMAX; i++) { if (i >= n) break; vf_fbytes[vf_flen + i] = (u8)p[i]; }
+  vf_flen += (u32)n; return nmemb;
+}
+u32 vf_c_fflush(char *f) { return 0; }
+u32 vf_c_ferror(char *f) { return 0; }
 static u32 vf_errno_cell;
 char *vf_c___errno_location(void) { return (char *)&vf_errno_cell; }
 char *vf_c_strcpy(char *d, char *s) { u64 i = 0; for (;; i++) { d[i] = s[i]; if (!s[i]) break; } return d; }
